@@ -16,8 +16,12 @@ Inductive aval := AStr (s : str) | AFalsy | ASeq (l : list entry) | ANonIter.
    int on the way), or a value *)
 Inductive klookup := KMissing | KTypeError | KVal (v : aval).
 Inductive get_out := GData (k : klookup) | GRaise.       (* data_source.get_data *)
-Inductive fs_out := FsContent | FsMissing | FsOSError.   (* open()/render of the resolved file *)
-Inductive hres := HContent | HNotFound | HForbidden | HError | HOk.
+(* open()/render of the resolved file: content; missing (ENOENT, EISDIR, ENOTDIR, ENAMETOOLONG, or
+   PermissionError on a directory); another OSError; PermissionError on a file (re-raised: the
+   wrappers turn it into forbidden / access violation AFTER the access); or the request path
+   does not translate to a file below root_dir (no access at all) *)
+Inductive fs_out := FsContent | FsMissing | FsOSError | FsPermission | FsNoPath.
+Inductive hres := HContent | HNotFound | HForbidden | HError | HOk | HBadRequest | HMethod.
 
 (* expected_client_addresses *)
 Inductive exp := ENone | EList (l : list entry) | ENonIter | ETypeErr.
@@ -104,6 +108,8 @@ Section Oracles.
                  | FsContent => (HContent, 1)
                  | FsMissing => (HNotFound, 1)
                  | FsOSError => (HError, 1)
+                 | FsPermission => (HForbidden, 1)
+                 | FsNoPath => (HNotFound, 0)
                  end
         end
     end.
@@ -113,6 +119,24 @@ Section Oracles.
   Definition update_stage (key : bool) (g : get_out) : option (bool * option klookup) :=
     if key then match g with GRaise => None | GData k => Some (true, Some k) end
     else Some (true, None).
+
+  (* what happens once access is granted: the request body of the ...from_request_body actions
+     is read and parsed first (bad request, nothing stored), then ONE data-store operation, which
+     may fail (e.g. database locked: internal error, nothing stored) *)
+  Definition update_apply (bad_body store_fault : bool) : hres * N :=
+    if bad_body then (HBadRequest, 0) else if store_fault then (HError, 0) else (HOk, 1).
+
+  Definition update_handle_f (bad_body store_fault : bool) (key : bool) (cfgl : list entry) (g : get_out)
+             (client : str) : hres * N :=
+    match update_stage key g with
+    | None => (HError, 0)
+    | Some st =>
+        match check (combine cfgl (if key then key_expected (fst st) (snd st) else ENone)) client with
+        | Denied => (HForbidden, 0)
+        | AErr => (HError, 0)
+        | Granted => update_apply bad_body store_fault
+        end
+    end.
 
   Definition update_handle (key : bool) (cfgl : list entry) (g : get_out) (client : str) : hres * N :=
     match update_stage key g with
